@@ -8,4 +8,7 @@ def run(tier):
     # the extended-real algebra the vector-level invariants rest on, established per cell on the real Factor methods
     for q, c, label in K.FUNCTIONS:
         reps.append(deductive.verify_function(K.REL, q, c, hooks=K.AlgHooks(), module_env=K.module_env(), prefix='%s::%s[cell: %s]' % (K.REL, q, label)))
-    return reps
+    # the vector-level algebra rests on CliqueVector applying the Factor operators clique by clique, and on combine adding a table only
+    # into a clique that contains its clique (pv/contracts/cvec.py)
+    from ..contracts import cvec
+    return reps + cvec.reports()
